@@ -18,6 +18,8 @@ RULE = ("cases = linear class variant x D x N odd/even x L x dt in [1e-4,1e6] x 
 REQUIRED = {"non_amplification": {"quick": 300, "thorough": 2000}, "strict_decay": {"quick": 20, "thorough": 150}, "norm_preserved": {"quick": 40, "thorough": 300},
             "wave_energy": {"quick": 10, "thorough": 60}, "monotone_history": {"quick": 40, "thorough": 300}}
 ASSUMPTIONS = ["applicability (Re sigma <= 0 on all grid modes) is classified with the model's symbol, amplifying configurations are counted outside_precondition"]
+AMBIENT = True            # thorough tier: the repository's own test-suite runs under this property's general monitor (rv/ambient.py)
+REQUIRED_AMBIENT = {'ambient_non_amplification': 60}
 TIMEOUT = {"quick": 900, "thorough": 3000}
 EPS = np.finfo(float).eps
 LIN = [n for n, s in zoo.SPECS.items() if s["linear"] and n != "stepper.Wave"]
